@@ -21,6 +21,14 @@ type pendingTimeout struct {
 	sessionState
 }
 
+// unwrapPendingTimeout returns the state a pending test request interrupted, or state itself.
+func unwrapPendingTimeout(state sessionState) sessionState {
+	if pending, ok := state.(pendingTimeout); ok {
+		return pending.sessionState
+	}
+	return state
+}
+
 func (s pendingTimeout) Timeout(session *session, event internal.Event) (nextState sessionState) {
 	switch event {
 	case internal.PeerTimeout:
